@@ -53,7 +53,7 @@ pub fn build(s: &LineScn, which: &str) -> WorldSys {
 		sys.events_held_through_settle = true;
 	}
 	if s.crash_nodes.is_empty() {
-		sys.oracles.push(Box::new(NoErrorOracle { allow_coop: false, allow_force_by_user: s.on_chain }));
+		sys.oracles.push(Box::new(NoErrorOracle { allow_coop: false, allow_force_by_user: s.on_chain, ..Default::default() }));
 		sys.oracles.push(Box::new(PaymentsResolveOracle));
 	} else {
 		let mut co = CrashOracle::new(infos.clone());
